@@ -40,10 +40,15 @@ func runDisp(t []string) string {
 func dispOnce(n, h, mask int) string {
 	d := dispose.NewDispose(context.Background(), nil)
 	counts := make([]atomic.Int32, h)
+	var orderMu sync.Mutex
+	var order []int
 	for i := 0; i < h; i++ {
 		i := i
 		d.AddCleanHandler(func() error {
 			counts[i].Add(1)
+			orderMu.Lock()
+			order = append(order, i)
+			orderMu.Unlock()
 			if mask>>i&1 == 1 {
 				return errors.New("handler failed")
 			}
@@ -51,7 +56,13 @@ func dispOnce(n, h, mask int) string {
 		})
 	}
 	res := make([]int, n)
-	p := barrierRun(n, func(i int) {
+	// one more goroutine registers a handler while the closers run: it runs once or never
+	var lateRuns atomic.Int32
+	p := barrierRun(n+1, func(i int) {
+		if i == n {
+			d.AddCleanHandler(func() error { lateRuns.Add(1); return nil })
+			return
+		}
 		res[i] = len(d.Close().Errors)
 	})
 	if len(p) > 0 {
@@ -77,6 +88,18 @@ func dispOnce(n, h, mask int) string {
 	// a Close after the fact must be a no-op that still reports the errors
 	if len(d.Close().Errors) != res[0] {
 		r = "late-mismatch"
+	}
+	if (d.CloseWithError() != nil) != (res[0] > 0) || len(d.GetErrors()) != res[0] {
+		r = "late-mismatch"
+	}
+	// the clean handlers ran in registration order; a handler registered during Close ran at most once
+	for i, x := range order {
+		if x != i {
+			r = "order"
+		}
+	}
+	if lateRuns.Load() > 1 {
+		r = "late-twice"
 	}
 	s := "h"
 	if h > 0 {
@@ -171,6 +194,8 @@ func tunOnce(init, role, tgt int, closers []string, it int) string {
 		switch {
 		case c[0] == 'c':
 			tn.Close(ctunnel.CloseReason(atoi(c[1:])), nil)
+		case c[0] == 't':
+			mgr.CloseTunnel(id, ctunnel.CloseReason(atoi(c[1:])))
 		case c == "p":
 			mgr.OnTunnelClosed(id, "m1", "peer", 1, 2, 3)
 		case c == "a":
